@@ -525,3 +525,45 @@ def witness_ops(w):
         tg = tuple(tuple(x) if isinstance(x, list) else x for x in target)
         out.append((name, tg, options))
     return out
+
+
+# ------------------------------------------------------------------ systematic histories
+TOPS = [[], ["OMPParallel"], ["OMPTarget"], ["ACCParallel"], ["ACCKernels"], ["ACCData"],
+        ["OMPSingle", "OMPParallel"], ["OMPMaster", "OMPParallel"], ["OMPTarget", "OMPParallel"],
+        ["OMPParallel", "OMPTarget"], ["ACCParallel", "ACCData"]]
+ALL_TRANS = LOOP_TRANS + REGION_TRANS
+
+
+def op_on(name, path):
+    """transformation `name` applied to the node at `path` (loop trans: the node; region trans: that single node)"""
+    if name in LOOP_TRANS:
+        return (name, ("node", tuple(path)), {"force": True})
+    return (name, ("range", tuple(path[:-1]), path[-1], path[-1] + 1), {})
+
+
+def systematic_histories(tops):
+    """deterministic histories: every transformation on a loop and on a loop holding a RETURN; every ordered pair
+    (inner, outer) on a 2-nest and directly nested; collapse=2 on the two imperfect 2-nests; enter data inside a
+    region -- each followed by the given lists of enclosing region transformations"""
+    L = lambda *b: ("L", tuple(b))   # noqa: E731
+    a2 = (L(L(S)),)
+    b1 = (L(S),)
+    imp = (L(L(S), S),)
+    imp_pre = (L(S, L(S)),)
+    ret = (L(S, ("R",)),)
+    out = []
+    for tp in tops:
+        top_ops = [(t, ("range", (), 0, 1), {}) for t in tp]
+        for x in ALL_TRANS:
+            out.append((b1, [op_on(x, (0,))] + top_ops))
+            out.append((ret, [op_on(x, (0,))] + top_ops))
+            for y in ALL_TRANS:
+                out.append((a2, [op_on(x, (0, 0)), op_on(y, (0,))] + top_ops))
+                if y in REGION_TRANS:
+                    out.append((b1, [op_on(x, (0,)), (y, ("range", (), 0, 1), {})] + top_ops))
+        for x in LOOP_TRANS:
+            for sk in (imp, imp_pre):
+                out.append((sk, [(x, ("node", (0,)), {"force": True, "collapse": 2})] + top_ops))
+        for x in ALL_TRANS:
+            out.append((a2, [op_on(x, (0,))] + top_ops + [("ACCEnterData", ("sched", (0,)), {})]))
+    return out
